@@ -532,6 +532,43 @@ func err1Obligations(w *World) []Ob {
 		if scopeOf(p, fn) == "cli" && !cliSet[fn] {
 			return // version/web subcommands and the --watch route: outside C16's quantifier
 		}
+		// an error handed in never comes back as nil: a function that receives an error and returns one may replace or
+		// wrap it, but `return nil` belongs on the side where the parameter is nil (the parser-error mapper, whose
+		// blank-line → nil row is TAB-1's business, is the one named exception)
+		if fn.Parent() == nil && fn.Synthetic == "" && scopeOf(p, fn) != "cli" && fn.Signature.Results().Len() > 0 && isErrorType(fn.Signature.Results().At(fn.Signature.Results().Len()-1).Type()) && !strings.HasSuffix(fid, "nodeGenerator).handleErr") {
+			for _, prm := range fn.Params {
+				if !isErrorType(prm.Type()) {
+					continue
+				}
+				bad := ""
+				allInstrs(fn, func(in ssa.Instruction) {
+					r, isR := in.(*ssa.Return)
+					if !isR || (fn.Recover != nil && r.Block() == fn.Recover) {
+						return
+					}
+					vals := rr(r)
+					if len(vals) == 0 || !isNilConst(vals[len(vals)-1]) {
+						return
+					}
+					onNilSide := false
+					for _, g := range guardsOf(r.Block()) {
+						if tv, nonNil, ok := nilTest(g.Cond, g.Pol); ok && !nonNil && (tv == ssa.Value(prm) || sameVar(tv, prm)) {
+							onNilSide = true
+						}
+					}
+					if !onNilSide {
+						bad = p.InstrPos(r)
+					}
+				})
+				ob := Ob{Func: fid, Construct: "error parameter " + prm.Name() + " never comes back as nil", Pos: p.Pos(fn.Pos()), Scope: scopeOf(p, fn), Nontrivial: true}
+				if bad != "" {
+					ob.Status, ob.Detail = Violation, "the return at "+bad+" hands back nil although the error handed in may be non-nil (it is only classified, e.g. with errors.Is): a failure of that class — or any error that wraps it — is reported as success"
+				} else {
+					ob.Status, ob.Detail = OK, "every `return nil` is on the side where the parameter is nil"
+				}
+				l.add(ob)
+			}
+		}
 		counts := map[string]int{}
 		for _, s := range errorSources(fn) {
 			construct := s.what
@@ -601,6 +638,13 @@ func err1Obligations(w *World) []Ob {
 			}
 			if c.consumed {
 				if why := errorSideReturnsNil(p, s, fn); why != "" {
+					ob.Status, ob.Detail = Violation, why
+					l.add(ob)
+					continue
+				}
+			}
+			if c.consumed && s.kind == "call" {
+				if why := errorSkippedOnLoopRoute(p, s); why != "" {
 					ob.Status, ob.Detail = Violation, why
 					l.add(ob)
 					continue
@@ -1444,4 +1488,67 @@ func callersReturnArgument(p *Prog, fn *ssa.Function, prm *ssa.Parameter) bool {
 		}
 	}
 	return true
+}
+
+
+// errorSkippedOnLoopRoute: the call of a module function that yields a value together with an error sits in a loop,
+// and the loop can go round to the call again — the next iteration overwrites the error — on a route that never
+// looked at the error (typically `if v == nil { continue }` placed before `if err != nil`): what the callee reported
+// for that item is lost and the item silently skipped.
+func errorSkippedOnLoopRoute(p *Prog, s errSource) string {
+	ex, isEx := s.val.(*ssa.Extract)
+	if !isEx {
+		return ""
+	}
+	call, isCall := ex.Tuple.(*ssa.Call)
+	if !isCall || call.Common().StaticCallee() == nil || !p.InModule(call.Common().StaticCallee()) {
+		return ""
+	}
+	start := call.Block()
+	looked := func(b *ssa.BasicBlock) bool {
+		// the block ends in a test that involves the error, or uses the error in any other way
+		for _, in := range b.Instrs {
+			if in == ssa.Instruction(call) || in == ssa.Instruction(ex) {
+				continue
+			}
+			for _, op := range in.Operands(nil) {
+				if op != nil && *op != nil && (*op == s.val) {
+					if _, isDbg := in.(*ssa.DebugRef); !isDbg {
+						return true
+					}
+				}
+			}
+		}
+		return false
+	}
+	// the error test may be spelled through a comparison instruction in one block and the If in the same block;
+	// `looked` covers both because the BinOp has the error as operand
+	if looked(start) {
+		return ""
+	}
+	seen := map[*ssa.BasicBlock]bool{}
+	why := ""
+	var walk func(b *ssa.BasicBlock)
+	walk = func(b *ssa.BasicBlock) {
+		if why != "" {
+			return
+		}
+		for _, s2 := range b.Succs {
+			if s2 == start {
+				pos := ""
+				if len(b.Instrs) > 0 {
+					pos = p.InstrPos(b.Instrs[len(b.Instrs)-1])
+				}
+				why = "the loop goes round to " + s.what + " again (from " + pos + ") on a route that never looked at the error of the previous call: the failure reported for that item is dropped and the item skipped silently"
+				return
+			}
+			if seen[s2] || looked(s2) {
+				continue
+			}
+			seen[s2] = true
+			walk(s2)
+		}
+	}
+	walk(start)
+	return why
 }
